@@ -117,6 +117,23 @@ fn tamper(cx: &mut Cx, verifier: NodeId, key: Arc<KeyMat>, p: Presentation) {
     if n < MAX_ATTR { let mut q = p.clone(); q.n = n + 1; q.bases = key.bases.0[..n + 1].to_vec(); deliver(cx, verifier, q, "n:+1".into(), false); }
     { let mut q = p.clone(); q.n = n + 1; deliver(cx, verifier, q, "n:+1_with_n_bases".into(), false); }
     { let mut q = p.clone(); q.n = n + 7; deliver(cx, verifier, q, "n:+7_with_n_bases".into(), false); }
+    // hidden-index lists with a duplicate and with an index beyond n (the commitment key has more bases)
+    if !p.hidden.is_empty() { let mut q = p.clone(); q.hidden.push(p.hidden[0]); deliver(cx, verifier, q, "hidden_set:duplicate".into(), false); }
+    { let mut q = p.clone(); q.hidden.push(n); deliver(cx, verifier, q, "hidden_set:+index_n".into(), false); }
+    // the per-attribute sub-proof arrays shortened (last entry removed / emptied / both consistently)
+    {
+        let v0 = parse(&p.proof_json);
+        for (name, paths) in [("proofs_commited_mi", vec!["/CL03/proofs_commited_mi"]), ("range_proofs_commited_mi", vec!["/CL03/range_proofs_commited_mi"]), ("both", vec!["/CL03/proofs_commited_mi", "/CL03/range_proofs_commited_mi"])] {
+            for how in ["last", "all"] {
+                let mut v = v0.clone();
+                let mut changed = false;
+                for path in &paths { if let Some(serde_json::Value::Array(a)) = v.pointer_mut(path) { if !a.is_empty() { changed = true; if how == "last" { a.pop(); } else { a.clear(); } } } }
+                if !changed { continue; }
+                let mut q = p.clone(); q.proof_json = v.to_string();
+                deliver(cx, verifier, q, format!("forged_subproof_array_shortened:{name}:{how}"), false);
+            }
+        }
+    }
     // every integer leaf of the serialized proof, a slice per run
     let v = parse(&p.proof_json);
     let ls = leaves(&v);
